@@ -377,11 +377,13 @@ impl<'tcx> Cx<'tcx> {
                         }
                         _ => {}
                     }
+                    let oi = self.ty(pty.ty);
                     J::Obj(vec![
                         ("k", js("f")),
                         ("i", ji(f.as_usize())),
                         ("n", name),
                         ("t", ji(self.ty(fty))),
+                        ("o", ji(oi)),
                     ])
                 }
                 ProjectionElem::Downcast(name, vi) => {
@@ -394,7 +396,8 @@ impl<'tcx> Cx<'tcx> {
                             _ => format!("#{}", vi.as_usize()),
                         },
                     };
-                    J::Obj(vec![("k", js("d")), ("v", js(n)), ("i", ji(vi.as_usize()))])
+                    let oi = self.ty(pty.ty);
+                    J::Obj(vec![("k", js("d")), ("v", js(n)), ("i", ji(vi.as_usize())), ("o", ji(oi))])
                 }
                 ProjectionElem::Index(l) => J::Obj(vec![("k", js("i")), ("l", ji(l.as_usize()))]),
                 ProjectionElem::ConstantIndex { offset, min_length, from_end } => J::Obj(vec![
